@@ -39,6 +39,7 @@ type SiteSpec struct {
 	Ordinal  int    // -1 = every site
 	Requires []*Clause
 	IsSend   bool
+	ValueOf  string // send: instead of an ordinal, "the send whose value is the result of a call to this function"
 }
 
 type Contract struct {
@@ -410,6 +411,9 @@ func (c *Contracts) loadContract(file string, f *SX) error {
 				if e.List[i].Atom != "*" {
 					fmt.Sscanf(e.List[i].Atom, "%d", &ss.Ordinal)
 				}
+				i++
+			} else if e.List[i].Head() == "of" && len(e.List[i].List) == 2 {
+				ss.ValueOf = e.List[i].List[1].Atom
 				i++
 			}
 			for _, se := range e.List[i:] {
